@@ -21,6 +21,7 @@ LEVEL_TEXT += (' (E5.store) deferred thunks are write-once (no element of the st
 LEVEL_TEXT += (" (E5.eq) the order and equality of values (which decide set membership) are the derived, field-by-field ones.")
 
 
+LEVEL_TEXT += (' (E5.ast) the checker performs no shrinking / reordering call on a collection that is a field of the AST; each attribute of an attribute statement is handed to Attribute::execute / execute_lazy, the only place that expands shorthands.')
 def run(prog, rep):
     nd = C02.dispatchers(prog, rep)
     rep.floor("E8.d", nd, 40, "dispatcher arms")
@@ -55,6 +56,8 @@ def run(prog, rep):
     e5.variable_map_shape(prog, rep, "E5.var")
     e5.mutability_flags(prog, rep)
     e5.no_dropped_elements(prog, rep)
+    nk = e5.checker_keeps_ast(prog, rep)
+    rep.floor("E5.ast", nk, 30, "checker functions")
     e5.no_text_keyed_tables(prog, rep)
     e5.deferred_stores_append_only(prog, rep, "E5.store")
     na = e3_driver.element_loops_complete(prog, rep)
